@@ -13,6 +13,7 @@ pub mod c09;
 pub mod c10;
 pub mod c11;
 pub mod c12;
+pub mod c13;
 pub mod c17;
 pub mod c18;
 pub mod c19;
@@ -33,6 +34,7 @@ pub fn dispatch(id: &str, opts: &Opts) -> Option<i32> {
         "C10" => run_property(&c10::C10, opts),
         "C11" => run_property(&c11::C11, opts),
         "C12" => run_property(&c12::C12, opts),
+        "C13" => run_property(&c13::C13, opts),
         "C17" => run_property(&c17::C17, opts),
         "C18" => run_property(&c18::C18, opts),
         "C19" => run_property(&c19::C19, opts),
